@@ -237,6 +237,12 @@ def pointArray (cvt : Nat → Nat) (F : WFields) : WArr :=
 def cellsArray (hasCells : Bool) (name dt : String) (items : List Nat) : Option DataArr :=
   makeDataArray name (if hasCells then ⟨dt, items.length, [], items⟩ else ⟨"uint64", 0, [], []⟩) (some 1)
 
+/-- one `<CellData>` element: the values gathered over the mesh's cell types, written as one array -/
+def cellDataArray (F : WFields) (n : String) : Option DataArr :=
+  match cellFieldValues F n with
+  | none => none
+  | some v => makeDataArray n v none
+
 /-- `VTUWriter.write` (the element tree, not its serialisation).  `cvt` see `make3d`.
     Cell-data elements are listed in first-occurrence order of their names (the code iterates a
     Python `set`: the order in the file is arbitrary, the reader keys them by name). -/
@@ -245,9 +251,7 @@ def writeVtu (cvt : Nat → Nat) (F : WFields) : Option VtuFile :=
   let cs := allCells F.cells
   let hasCells := !cs.isEmpty
   match mapM' (fun (f : String × WArr) => makeDataArray f.1 f.2 none) F.pf,
-        mapM' (fun n => match cellFieldValues F n with
-                        | none => none
-                        | some v => makeDataArray n v none) names,
+        mapM' (cellDataArray F) names,
         makeDataArray "Coordinates" (pointArray cvt F) none,
         cellsArray hasCells "connectivity" F.conntype (cs.flatMap (·.2)),
         cellsArray hasCells "offsets" "int64" (runningSums 0 (cs.map (·.2.length))),
